@@ -12,14 +12,16 @@ Proved for all inputs:
   `vertex_inside_both_tetrahedra`, `pair_polygon_spec`, `barycentric_lower_bound`,
   `force_along_normal`, `pressure_lower_bound`, `area_nonneg`, `no_valid_point_no_polygon`,
   `reported_pairs_branches`, `swap_contact_plane`.
-Obligation / defect theorems on the faithful model:
-  `halfplane_buffer_sufficient_partial`, `halfplane_buffer_sufficient_small`, `halfplane_buffer_overflow`,
-  `halfplane_buffer_assert_asIs`, `makeHalfplanes_asIs_before_fix_gap`,
-  `same_branch_asIs_counterexample`.
+  `halfplane_buffer_never_overflows` (unconditional: no `indexOOB`, no `assertFail` in
+  `intersect_halfplanes`, for every list of half-planes), `halfplane_points_general_position`.
+Repaired defects, as before_fix / fixed pairs on the faithful models:
+  `halfplane_buffer_overflow_before_fix` / `halfplane_buffer_overflow_fixed`,
+  `halfplane_buffer_assert_before_fix` / `halfplane_buffer_assert_fixed`,
+  `halfplane_buffer_overflow_general_before_fix`, `halfplane_buffer_before_fix_sufficient_partial`,
+  `halfplane_buffer_before_fix_sufficient_small`, `makeHalfplanes_asIs_before_fix_gap`.
+Defect theorem on the faithful model (code as it is): `same_branch_asIs_counterexample`.
 Not proved (named in the harness module's `PARTIAL`): convexity of the angular order (atan2
-monotonicity), independence of the tetrahedron order beyond `swap_contact_plane`, and a buffer
-bound without the general-position hypothesis (false as `halfplane_buffer_overflow` shows; what
-would be needed is a proof that two tetrahedra never produce more than 23 valid pairs).
+monotonicity), independence of the tetrahedron order beyond `swap_contact_plane`.
 -/
 import D3.Proofs.HydroDefects
 
@@ -236,53 +238,80 @@ example : intersectHalfplanes ([⟨⟨0, 1⟩, ⟨1, 0⟩⟩, ⟨⟨0, 0⟩, ⟨
 
 /-! ## the half-plane buffer -/
 
-/-- **C15, buffer obligation (partial).**  For any number `n ≥ 1` of half-planes in general
-position — no intersection point of a boundary line `i` with a later line lies within the
-`EPSILON` band of a third later line, in the un-normalised measure the code itself uses — every
-first index `i` has at most two partners `j > i` with a valid intersection, so at most `2 n` rows
-are written: neither the checked write into the `3 n`-row buffer nor the assertion
-`n_intersections < len(points)` can fail.  *Partial* because the hypothesis is exactly what
-fails for the inputs that matter most (stacked elements, shared vertices: three or more boundary
-lines through one vertex); see `halfplane_buffer_overflow` for what happens without it. -/
-theorem halfplane_buffer_sufficient_partial (hps : List (HP ℝ)) (h1 : 1 ≤ hps.length)
-    (gp : GeneralPosition hps) :
+/-- **C15, the half-plane buffer never overflows.**  `intersect_halfplanes` reserves
+`n (n-1) // 2 + 1` rows, one per pair `i < j` plus one.  For **every** list of half-planes — any
+`n`, the empty list included, any number of concurrent or coincident boundary lines — the store
+`points[n_intersections] = p` is in range (no `indexOOB`: no IndexError interpreted, no
+out-of-bounds store under numba) and the assertion `n_intersections < len(points)` holds (no
+`assertFail`); the function returns normally with at most one point per pair. -/
+theorem halfplane_buffer_never_overflows (hps : List (HP ℝ)) :
+    ∃ res, intersectHalfplanes hps = .ok res ∧ res.length ≤ hps.length * (hps.length - 1) / 2 :=
+  intersectHalfplanes_total hps
+
+/-- non-vacuity is immediate (no hypothesis); the extreme cases evaluated exactly: -/
+example : intersectHalfplanes ([] : List (HP Rat)) = .ok [] := by decide +kernel
+
+/-- **C15, number of points in general position.**  If no intersection point of a boundary line
+`i` with a later line lies within the `EPSILON` band of a third later line (in the un-normalised
+measure the code itself uses), every first index `i` has at most two partners `j > i` with a
+valid intersection: at most `2 n` points are returned. -/
+theorem halfplane_points_general_position (hps : List (HP ℝ)) (gp : GeneralPosition hps) :
     ∃ res, intersectHalfplanes hps = .ok res ∧ res.length ≤ 2 * hps.length :=
-  intersectHalfplanes_ok_general_position hps h1 gp
+  intersectHalfplanes_general_position_count hps gp
 
 /-- non-vacuity: the triangle `x ≥ 0`, `y ≥ 0`, `x + y ≤ 1` is in general position -/
 example : GeneralPosition triR ∧ 1 ≤ triR.length := ⟨triR_gp, by simp [triR]⟩
 
-/-- without any hypothesis on the position: with at most six half-planes there are at most
-`n (n - 1) / 2 < 3 n` pairs, so the buffer cannot overflow and the assertion cannot fail -/
-theorem halfplane_buffer_sufficient_small (hps : List (HP ℝ)) (h1 : 1 ≤ hps.length)
-    (h6 : hps.length ≤ 6) : ∃ res, intersectHalfplanes hps = .ok res :=
-  intersectHalfplanes_ok_of_le_six hps h1 h6
+/-! ### the repaired buffer defect (F-C15-halfplane-buffer): before_fix / fixed pairs -/
 
-example : (1 : Nat) ≤ exTriangle.length ∧ exTriangle.length ≤ 6 := by decide
+/-- **before the repair** (`3 n` rows): eight half-planes whose boundary lines pass through one
+point with pairwise different directions have `C(8,2) = 28` valid intersections; the 25th write
+was out of range of the 24-row buffer: `indexOOB` (IndexError interpreted, an out-of-bounds store
+under numba — the Python `assert` comes after the loop). -/
+theorem halfplane_buffer_overflow_before_fix :
+    intersectHalfplanes_asIs_before_fix hps8 = .error .indexOOB := hps8_overflow_before_fix
 
-/-- **C15, buffer overflow on the faithful model.**  Eight half-planes whose boundary lines pass
-through one point with pairwise different directions have `C(8,2) = 28` valid intersections;
-the 25th write is out of range of the 24-row buffer: `indexOOB` (IndexError interpreted, an
-out-of-bounds store under numba — the Python `assert` comes after the loop). -/
-theorem halfplane_buffer_overflow : intersectHalfplanes hps8 = .error .indexOOB := hps8_overflow
+/-- **after the repair** the same input returns the 28 pairwise intersections (28 copies of the
+common point; `order_points` / `filter_unique_points` reduce them afterwards) -/
+theorem halfplane_buffer_overflow_fixed :
+    intersectHalfplanes hps8 = .ok (List.replicate 28 ⟨0, 0⟩) := hps8_fixed
 
-/-- seven such half-planes write exactly `21 = 3·7` rows and fail the strict assertion; the empty
-list fails it too (`0 < 0`) -/
-theorem halfplane_buffer_assert_asIs :
-    intersectHalfplanes hps7 = .error .assertFail ∧
-    intersectHalfplanes ([] : List (HP ℝ)) = .error .assertFail :=
-  ⟨hps7_assert, empty_assert⟩
+/-- **before the repair**: seven such half-planes wrote exactly `21 = 3·7` rows and failed the
+strict assertion; the empty list failed it too (`0 < 0`) -/
+theorem halfplane_buffer_assert_before_fix :
+    intersectHalfplanes_asIs_before_fix hps7 = .error .assertFail ∧
+    intersectHalfplanes_asIs_before_fix ([] : List (HP ℝ)) = .error .assertFail :=
+  ⟨hps7_assert_before_fix, empty_assert_before_fix⟩
 
-/-- general form: any number of half-planes through one point, pairwise not flagged parallel,
-with more than `3 n` pairs -/
-theorem halfplane_buffer_overflow_general (hps : List (HP ℝ)) (ho : ThroughOrigin hps)
+/-- **after the repair**: both return normally -/
+theorem halfplane_buffer_assert_fixed :
+    intersectHalfplanes hps7 = .ok (List.replicate 21 ⟨0, 0⟩) ∧
+    intersectHalfplanes ([] : List (HP ℝ)) = .ok [] :=
+  ⟨hps7_fixed, empty_fixed⟩
+
+/-- before the repair, general form: any number of half-planes through one point, pairwise not
+flagged parallel, with more than `3 n` pairs -/
+theorem halfplane_buffer_overflow_general_before_fix (hps : List (HP ℝ)) (ho : ThroughOrigin hps)
     (hc : PairwiseCrossing hps) (hbig : 3 * hps.length < (pairIdx hps.length).length) :
-    intersectHalfplanes hps = .error .indexOOB :=
-  concurrent_overflow hps ho hc hbig
+    intersectHalfplanes_asIs_before_fix hps = .error .indexOOB :=
+  concurrent_overflow_before_fix hps ho hc hbig
 
 /-- non-vacuity of the general form: the eight half-planes above -/
 example : ThroughOrigin hps8 ∧ PairwiseCrossing hps8 ∧ 3 * hps8.length < (pairIdx hps8.length).length :=
   ⟨throughOrigin_int dirs8, pairwiseCrossing_int dirs8 (by decide), by simp only [hps8, List.length_map]; decide⟩
+
+/-- before the repair the `3 n` row buffer did suffice in general position (`n ≥ 1`) … -/
+theorem halfplane_buffer_before_fix_sufficient_partial (hps : List (HP ℝ)) (h1 : 1 ≤ hps.length)
+    (gp : GeneralPosition hps) :
+    ∃ res, intersectHalfplanes_asIs_before_fix hps = .ok res ∧ res.length ≤ 2 * hps.length :=
+  intersectHalfplanes_before_fix_ok_general_position hps h1 gp
+
+/-- … and for at most six half-planes (`n (n - 1) / 2 < 3 n`) -/
+theorem halfplane_buffer_before_fix_sufficient_small (hps : List (HP ℝ)) (h1 : 1 ≤ hps.length)
+    (h6 : hps.length ≤ 6) : ∃ res, intersectHalfplanes_asIs_before_fix hps = .ok res :=
+  intersectHalfplanes_before_fix_ok_of_le_six hps h1 h6
+
+example : (1 : Nat) ≤ exTriangle.length ∧ exTriangle.length ≤ 6 := by decide
 
 /-! ## recorded defects on the faithful model -/
 
